@@ -100,6 +100,51 @@ class Equip:
             if any(len(v) > 1 for v in by_ce.values()) or any(k not in op[1] for k in by_ce):
                 raise RuntimeError("S6F11 for an event that was not triggered, or two for one event")
             return [(f"(RTrigger {idl(ce)})", self.report_lit(by_ce[ce][0]) if ce in by_ce else "RNothing") for ce in op[1]]
+        elif kind == "trigger_held":
+            # one call with the events [a, b, c]; a is linked and enabled, the host holds its S6F12 back and meanwhile makes a request about b
+            # (delete its report, unlink it, disable it).  The equipment decides about each event when its turn comes: a and c are judged like
+            # single triggers before / after the host's request; b's turn may be read either way and is not judged.
+            import threading
+            import time
+            a, b, c = op[1]
+            responder = self.rig.responders.pop((6, 11))
+            ack = lambda system: gemrig.data_frame(6, 12, system, b"\x21\x01\x00")  # noqa: E731
+            pairs = []
+            try:
+                self.rig.handler.trigger_collection_events([a, b, c])
+                deadline = time.monotonic() + 10
+                while (6, 11) not in self.rig.pending:
+                    if time.monotonic() > deadline:
+                        raise RuntimeError("no S6F11 for the first (linked, enabled) event of a trigger call")
+                    time.sleep(0.0005)
+                senders = [t for t in threading.enumerate() if "_ce_sender" in t.name]
+                for t in senders:
+                    t.parked = True
+                if not self.rig.settle():
+                    raise RuntimeError("rig did not settle while the S6F12 is held back")
+                first = [x for x in self.rig.new_frames() if (x.header.stream, x.header.function) == (6, 11)]
+                pairs.append((f"(RTrigger {idl(a)})", self.report_lit(first[0]) if len(first) == 1 else "RNothing", self.state()))
+                pairs += [(lit, out, self.state()) for lit, out in self.do(op[2])]
+                for t in senders:
+                    t.parked = False
+                later = []
+                deadline = time.monotonic() + 15
+                while any(t.is_alive() for t in senders) or (6, 11) in self.rig.pending:
+                    if (6, 11) in self.rig.pending:
+                        self.rig.resolve((6, 11), ack)
+                    if time.monotonic() > deadline:
+                        raise RuntimeError("the sender thread of a trigger call did not finish")
+                    time.sleep(0.0005)
+                if not self.rig.settle():
+                    raise RuntimeError("rig did not settle after trigger")
+                later = [x for x in self.rig.new_frames() if (x.header.stream, x.header.function) == (6, 11)]
+                of_c = [x for x in later if plain(self.decode(x).get()["CEID"]) == c]
+                if len(of_c) > 1 or any(plain(self.decode(x).get()["CEID"]) not in (b, c) for x in later):
+                    raise RuntimeError("S6F11 for an event that was not triggered, or two for one event")
+                pairs.append((f"(RTrigger {idl(c)})", self.report_lit(of_c[0]) if of_c else "RNothing", None))
+            finally:
+                self.rig.responders[(6, 11)] = responder
+            return pairs
         else:
             raise ValueError(kind)
         return [(lit, out)]
@@ -120,9 +165,11 @@ def run_history(ops):
                 eq.set_value(op[1], op[2])
                 continue
             pairs = eq.do(op)
-            reports, links = eq.state()
+            final = eq.state()
             vals = "[" + ";".join(f"({idl(k)}, {L.z(v)})" for k, v in eq.values.items()) + "]"
-            for lit, out in pairs:
+            for pair in pairs:
+                lit, out = pair[0], pair[1]
+                reports, links = pair[2] if len(pair) > 2 and pair[2] is not None else final
                 steps.append("{| q_op := " + lit + "; q_values := " + vals + "; q_out := " + out + "; q_reports := ["
                              + ";".join(f"({idl(k)}, {idsl(vs)})" for k, vs in reports) + "]; q_links := ["
                              + ";".join(f"({idl(k)}, ({idsl(rs)}, {L.bool_(en)}))" for k, rs, en in links) + "] |}")
@@ -171,6 +218,12 @@ def rand_ops(rnd, n):
 
 
 DIRECTED = [
+    # a host request about a later event of a trigger call arrives between the S6F11 of an earlier one and its S6F12: the events behind it are
+    # judged when their turn comes (delete the report of b, unlink b, disable b; c untouched and due its report)
+    [("define", [(1, [10]), (2, [20]), ("r", ["sx"])]), ("link", [(1, [1]), (2, [2]), ("ce", ["r"])]), ("enable", True, []), ("set", 10, 5),
+     ("trigger_held", [1, 2, "ce"], ("define", [(2, [])])), ("request", 2), ("request", "ce"),
+     ("define", [(2, [20])]), ("link", [(2, [2])]), ("enable", True, [2]), ("trigger_held", ["ce", 2, 1], ("link", [(2, [])])), ("request", 1),
+     ("link", [(2, [2])]), ("enable", True, [2]), ("trigger_held", [2, 1, "ce"], ("enable", False, [1])), ("trigger_held", [2, "ce", 1], ("define", [])), ("request", 2)],
     # several events in one trigger call: the enabled ones are reported, wherever the others stand in the list
     [("define", [(1, [10]), (2, [20])]), ("link", [(1, [1]), (2, [2]), ("ce", [1, 2])]), ("enable", True, [1]), ("trigger_many", [2, 1]), ("trigger_many", [3, "ce", 1, 2]),
      ("enable", True, ["ce"]), ("trigger_many", [2, "ce", 1]), ("enable", False, [1]), ("trigger_many", [1, 2, "ce"]), ("trigger_many", [1, "ce"])],
